@@ -42,6 +42,7 @@ type vrtConn struct {
 	arms       int   // number of SetReadDeadline calls
 	readsSinceArm int
 	writesAfterClose int
+	wcap       int // > 0: the peer has stopped reading - Write blocks once wcap bytes are pending
 }
 
 func vrtNewConn() *vrtConn {
@@ -78,9 +79,15 @@ func (c *vrtConn) Write(b []byte) (int, error) {
 	vrtTouch()
 	c.mu.Lock()
 	defer c.mu.Unlock()
+	for c.wcap > 0 && len(c.out) >= c.wcap && !c.closed && !c.peerClosed {
+		c.cond.Wait() // the peer's receive window is full
+	}
 	if c.closed {
 		c.writesAfterClose++
 		return 0, vrtErrClosed
+	}
+	if c.peerClosed && c.wcap > 0 {
+		return 0, vrtErrClosed // connection reset by the peer
 	}
 	c.out = append(c.out, b...)
 	return len(b), nil
@@ -142,7 +149,15 @@ func (c *vrtConn) peerTake() []byte {
 	defer c.mu.Unlock()
 	b := c.out
 	c.out = nil
+	c.cond.Broadcast()
 	return b
+}
+
+// peerStall: the peer stops reading; at most n more bytes are accepted.
+func (c *vrtConn) peerStall(n int) {
+	c.mu.Lock()
+	c.wcap = n
+	c.mu.Unlock()
 }
 
 func (c *vrtConn) isClosed() bool {
